@@ -15,14 +15,14 @@ package service
 //@ property C12 roots (*service).publish, (*service).processIncoming, (*service).processAcked
 //@ property C09 roots (*service).processIncoming, (*service).peekMessageSize, (*service).stop, (*github.com/mdzio/go-mqtt/sessions.Session).Init, (*github.com/mdzio/go-mqtt/sessions.Session).Update
 //@ property C10 roots (*Server).getSession, (*service).stop, (*github.com/mdzio/go-mqtt/sessions.Manager).Get, (*github.com/mdzio/go-mqtt/sessions.Manager).Del, (*github.com/mdzio/go-mqtt/sessions.Session).AddTopic, (*github.com/mdzio/go-mqtt/sessions.Session).RemoveTopic
-//@ property C06 roots github.com/mdzio/go-mqtt/topics.nextTopicLevel, (*github.com/mdzio/go-mqtt/topics.Manager).Subscribe, (*github.com/mdzio/go-mqtt/topics.Manager).Unsubscribe, (*github.com/mdzio/go-mqtt/topics.Manager).Subscribers
-//@ property C07 roots (*service).processUnsubscribe, (*service).processSubscribe, (*github.com/mdzio/go-mqtt/message.SubackMessage).AddReturnCodes, (*github.com/mdzio/go-mqtt/message.SubackMessage).AddReturnCode, (*github.com/mdzio/go-mqtt/message.SubscribeMessage).Decode, (*github.com/mdzio/go-mqtt/message.UnsubscribeMessage).Decode, (*github.com/mdzio/go-mqtt/message.SubackMessage).Encode, (*github.com/mdzio/go-mqtt/topics.Manager).Subscribe, (*github.com/mdzio/go-mqtt/topics.Manager).Unsubscribe
+//@ property C06 roots github.com/mdzio/go-mqtt/topics.nextTopicLevel, (*github.com/mdzio/go-mqtt/topics.Manager).Subscribe, (*github.com/mdzio/go-mqtt/topics.Manager).Unsubscribe, (*github.com/mdzio/go-mqtt/topics.Manager).Subscribers, (*github.com/mdzio/go-mqtt/topics.MemTopics).Subscribe, (*github.com/mdzio/go-mqtt/topics.MemTopics).Unsubscribe, (*github.com/mdzio/go-mqtt/topics.MemTopics).Subscribers, (*github.com/mdzio/go-mqtt/topics.snode).sinsert, (*github.com/mdzio/go-mqtt/topics.snode).sremove, (*github.com/mdzio/go-mqtt/topics.snode).smatch, (*github.com/mdzio/go-mqtt/topics.snode).matchQos, github.com/mdzio/go-mqtt/topics.NewMemProvider, github.com/mdzio/go-mqtt/topics.newSNode, (*github.com/mdzio/go-mqtt/topics.MemTopics).Retain, (*github.com/mdzio/go-mqtt/topics.MemTopics).Retained, (*github.com/mdzio/go-mqtt/topics.rnode).rinsert, (*github.com/mdzio/go-mqtt/topics.rnode).rremove, (*github.com/mdzio/go-mqtt/topics.rnode).rmatch, (*github.com/mdzio/go-mqtt/topics.rnode).allRetained, github.com/mdzio/go-mqtt/topics.newRNode
+//@ property C07 roots (*service).processUnsubscribe, (*service).processSubscribe, (*github.com/mdzio/go-mqtt/message.SubackMessage).AddReturnCodes, (*github.com/mdzio/go-mqtt/message.SubackMessage).AddReturnCode, (*github.com/mdzio/go-mqtt/message.SubscribeMessage).Decode, (*github.com/mdzio/go-mqtt/message.UnsubscribeMessage).Decode, (*github.com/mdzio/go-mqtt/message.SubackMessage).Encode, (*github.com/mdzio/go-mqtt/topics.Manager).Subscribe, (*github.com/mdzio/go-mqtt/topics.Manager).Unsubscribe, (*github.com/mdzio/go-mqtt/topics.MemTopics).Subscribe, (*github.com/mdzio/go-mqtt/topics.MemTopics).Unsubscribe, (*github.com/mdzio/go-mqtt/topics.snode).sinsert, (*github.com/mdzio/go-mqtt/topics.snode).sremove
 //@ property C11 roots (*Server).handleConnection, (*Server).getSession, (*github.com/mdzio/go-mqtt/message.ConnectMessage).Decode, (*github.com/mdzio/go-mqtt/message.ConnectMessage).decodeMessage, (*github.com/mdzio/go-mqtt/message.ConnectMessage).validClientID, (*github.com/mdzio/go-mqtt/message.ConnackMessage).Encode
 //@ property C05 roots (*buffer).Close, (*buffer).Read, (*buffer).ReadPeek, (*buffer).ReadWait, (*buffer).ReadCommit, (*buffer).Write, (*buffer).WriteWait, (*buffer).WriteCommit, (*buffer).waitForWriteSpace, (*buffer).ReadFrom, (*buffer).WriteTo, (*service).onPublish, getMessageBuffer, getConnectMessage, (*service).peekMessageSize, (*service).peekMessage, (*github.com/mdzio/go-mqtt/message.ConnectMessage).Decode
-//@ property C08 roots (*service).start$1, (*service).onPublish, (*Server).Publish, (*service).processSubscribe, (*service).publish, (*github.com/mdzio/go-mqtt/message.PublishMessage).SetRetain, (*github.com/mdzio/go-mqtt/message.PublishMessage).SetQoS, (*github.com/mdzio/go-mqtt/message.PublishMessage).Clone, (*github.com/mdzio/go-mqtt/topics.Manager).Retain, (*github.com/mdzio/go-mqtt/topics.Manager).Retained, (*github.com/mdzio/go-mqtt/topics.MemTopics).Retain, (*github.com/mdzio/go-mqtt/topics.rnode).rinsert, (*github.com/mdzio/go-mqtt/topics.rnode).rremove
+//@ property C08 roots (*service).start$1, (*service).onPublish, (*Server).Publish, (*service).processSubscribe, (*service).publish, (*github.com/mdzio/go-mqtt/message.PublishMessage).SetRetain, (*github.com/mdzio/go-mqtt/message.PublishMessage).SetQoS, (*github.com/mdzio/go-mqtt/message.PublishMessage).Clone, (*github.com/mdzio/go-mqtt/topics.Manager).Retain, (*github.com/mdzio/go-mqtt/topics.Manager).Retained, (*github.com/mdzio/go-mqtt/topics.MemTopics).Retain, (*github.com/mdzio/go-mqtt/topics.rnode).rinsert, (*github.com/mdzio/go-mqtt/topics.rnode).rremove, (*github.com/mdzio/go-mqtt/topics.MemTopics).Retained, (*github.com/mdzio/go-mqtt/topics.rnode).rmatch, (*github.com/mdzio/go-mqtt/topics.rnode).allRetained, github.com/mdzio/go-mqtt/topics.newRNode
 //@ property C20 roots (*Client).Connect, (*Client).ConnectTLS, getConnackMessage, (*service).subscribe, (*service).subscribe$1, (*service).unsubscribe, (*service).unsubscribe$1, (*service).ping, (*service).processPublish, (*service).processIncoming, (*service).processAcked, (*service).onPublish, (*github.com/mdzio/go-mqtt/message.ConnackMessage).Decode
 //@ property C19 roots (*service).processIncoming, (*service).receiver, (timeoutReader).Read, (*service).stop, (*github.com/mdzio/go-mqtt/sessions.Session).Update
-//@ property C01 roots (*service).onPublish, (*Server).Publish, (*service).processUnsubscribe
+//@ property C01 roots (*service).onPublish, (*Server).Publish, (*service).processUnsubscribe, (*github.com/mdzio/go-mqtt/topics.MemTopics).Subscribe, (*github.com/mdzio/go-mqtt/topics.MemTopics).Unsubscribe, (*github.com/mdzio/go-mqtt/topics.MemTopics).Subscribers, (*github.com/mdzio/go-mqtt/topics.snode).sinsert, (*github.com/mdzio/go-mqtt/topics.snode).sremove, (*github.com/mdzio/go-mqtt/topics.snode).smatch, (*github.com/mdzio/go-mqtt/topics.snode).matchQos, github.com/mdzio/go-mqtt/topics.NewMemProvider, github.com/mdzio/go-mqtt/topics.newSNode
 //@ property C17 roots (*service).writeMessage, (*stat).increment, (*buffer).WriteTo, (*buffer).ReadPeek, (*buffer).ReadCommit, (*buffer).ReadFrom
 //@ property C17 callers (*buffer).Write, (*buffer).WriteWait, (*buffer).WriteCommit
 //@ property C15 roots (*buffer).Close, (*buffer).Read, (*buffer).ReadPeek, (*buffer).ReadWait, (*buffer).ReadCommit, (*buffer).Write, (*buffer).WriteWait, (*buffer).WriteCommit, (*buffer).waitForWriteSpace, (*buffer).ReadFrom, (*buffer).WriteTo
@@ -903,8 +903,6 @@ func vspecCovered(x int64, start int64, c int64, size int64) bool {
 //@   ensures err != nil ==> !typeis(err, message.ConnackCode)
 //@   ensures[ghostdef-dial] gfield(0, "ndial") == old(gfield(0, "ndial")) + ite(err == nil, 1, 0) && (err == nil ==> gfield(0, "lastdial") == ref(c) && gfield(c, "nclosed") == 0)
 //@   modifies gfield(0, "ndial"), gfield(0, "lastdial")
-//@ extern github.com/mdzio/go-mqtt/topics.NewMemProvider
-//@   ensures result != nil
 //@ extern github.com/mdzio/go-mqtt/topics.Register
 //@   modifies topics.providers
 //@ extern github.com/mdzio/go-mqtt/topics.NewManager
